@@ -88,6 +88,7 @@ func run(p *props.Prop, r *rep.Report, tier, repo, verif string, seed int64) (co
 		if len(cfgs) > 1 {
 			r.Config = cfg.String()
 		}
+		ana.DefaultProg = prog
 		ctx := &props.Ctx{P: prog, R: r, Tier: tier, Repo: repo, Verif: verif, Load: ana.Load}
 		p.Run(ctx)
 		last = ctx
